@@ -114,7 +114,7 @@ func init() {
 	facet.Register(facet.F[MarksIn]{
 		Prop: "C19", Name: "marks/paths-roundtrip",
 		Rule:  marksRule + "; UnmarkDeepWithPaths must report exactly the model's marked members (path, marks), each path valid for Apply, and MarkWithPaths (any order, any subset) must restore exactly those marks",
-		Quick: 30000, Thorough: 200000,
+		Quick: 30000, Thorough: 60000,
 		Gen: genMarksIn,
 		Check: func(c *facet.Ctx, in MarksIn) error {
 			classifyMarks(c, in.V)
@@ -266,7 +266,7 @@ func init() {
 	facet.Register(facet.F[MarksIn]{
 		Prop: "C19", Name: "marks/unmarkdeep",
 		Rule:  marksRule + "; UnmarkDeep must leave no mark at any depth, change nothing else, and return exactly the union of the marks in the spec; ContainsMarked must agree with the spec",
-		Quick: 30000, Thorough: 200000,
+		Quick: 30000, Thorough: 60000,
 		Gen: func(t *rapid.T) MarksIn { return MarksIn{V: genValue(t)} },
 		Check: func(c *facet.Ctx, in MarksIn) error {
 			classifyMarks(c, in.V)
